@@ -7,6 +7,7 @@
    Maven compare: the explicit panic(bCategory) is unreachable ... C01_maven_no_panic, C01_maven_compare_total
    PEP 508 markers: parser and Eval (incl. Eval's default panic) . C16_parse_no_panic, C16_eval_no_panic, C16_fuel_bound
    POM interpolation: terminates, no panic, no error ............ C15_interp_terminates, C15_interp_no_panic, C15_interp_total
+   the whole POM pipeline (profiles, parents, imports, limits) ... C15_pipeline_total, C15_process_dependencies_total
    Graph.Canon: no panic (root kept), BFS fuel suffices .......... C13_total
    npm.Resolve: the three nil dereferences are unreachable ....... C06_no_panic
    pypi buildGraph on a returned state ........................... C08_graph_total
@@ -27,6 +28,7 @@ Definition C04_marker_fuel_bound := Properties.C16.C16_fuel_bound.
 Definition C04_interp_terminates := Properties.C15.C15_interp_terminates.
 Definition C04_interp_no_panic := Properties.C15.C15_interp_no_panic.
 Definition C04_interp_total := Properties.C15.C15_interp_total.
+Definition C04_pom_pipeline_total := Properties.C15.C15_pipeline_total.
 Definition C04_canon_total := Properties.C13.C13_total.
 Definition C04_pypi_parse_total := Properties.C01_pypi.C01_pypi_parse_total.
 Definition C04_parse_dependency_total := Properties.C16.C16_parse_dependency_total.
@@ -36,6 +38,7 @@ Check C04_maven_compare_total. Check C04_marker_eval_no_panic. Check C04_interp_
 Print Assumptions C04_maven_compare_total.
 Print Assumptions C04_marker_eval_no_panic.
 Print Assumptions C04_interp_total.
+Print Assumptions C04_pom_pipeline_total.
 Print Assumptions C04_canon_total.
 Print Assumptions C04_pypi_parse_total.
 Print Assumptions C04_parse_dependency_total.
